@@ -16,7 +16,7 @@ CONSTANTS
   Bcast4 = "bcast4"
   V6 = "l1"
   NoIP = "noip"
-  ByMac = FALSE
+  ByMac = TRUE
 CONSTRAINT Mark
 CONSTRAINT Last
 POSTCONDITION TraceAccepted
